@@ -146,3 +146,105 @@ theorem planFiles_all_ok_directives (cfg : Cfg) (h : cfg.mode = .all) (db : Db) 
       · exact ih true (fi + 1) hok g hr
 
 end Atlas.Tx
+
+namespace Atlas.Tx
+
+/-- operations that cannot end a transaction: plain ones and BEGIN. -/
+def Op.quiet : Op → Bool
+  | .begin => true
+  | o => o.plain
+
+theorem applyOps_quiet_open (ops : List Op) (d w : Db) (h : ∀ op ∈ ops, op.quiet = true) :
+    ∃ w', applyOps { dur := d, work := some w } ops = { dur := d, work := some w' } := by
+  induction ops generalizing w with
+  | nil => exact ⟨w, rfl⟩
+  | cons op rest ih =>
+    have h1 : ∃ w1, applyOp { dur := d, work := some w } op = { dur := d, work := some w1 } := by
+      have hq := h op (by simp)
+      cases op <;> simp [Op.quiet, Op.plain] at hq <;> simp [applyOp, St.write]
+    obtain ⟨w1, h1⟩ := h1
+    obtain ⟨w2, h2⟩ := ih w1 (fun o ho => h o (by simp [ho]))
+    exact ⟨w2, by simp only [applyOps, List.foldl_cons] at *; rw [h1]; exact h2⟩
+
+/-- a list of quiet operations that starts with BEGIN (or is empty) keeps the durable state, from a state without
+an open transaction too. -/
+theorem applyOps_quiet_closed (ops : List Op) (d : Db) (h : ∀ op ∈ ops, op.quiet = true)
+    (hb : ops = [] ∨ ops.head? = some Op.begin) : (applyOps { dur := d, work := none } ops).dur = d := by
+  cases ops with
+  | nil => rfl
+  | cons op rest =>
+    rcases hb with hb | hb
+    · simp at hb
+    · simp at hb
+      subst hb
+      obtain ⟨w', hw⟩ := applyOps_quiet_open rest d d (fun o ho => h o (by simp [ho]))
+      simp only [applyOps, List.foldl_cons, applyOp] at *
+      rw [hw]
+
+/-- shape of the loop's operations in mode `all`: quiet operations, then at most one closing operation. -/
+theorem planFiles_all_shape (cfg : Cfg) (h : cfg.mode = .all) (db : Db) (files : List TFile) :
+    ∀ (txOpen : Bool) (fi : Nat), ∃ body tail, (planFiles cfg db txOpen fi files).1 = body ++ tail ∧ tail.length ≤ 1 ∧
+      (∀ op ∈ body, op.quiet = true) ∧ (txOpen = false → body = [] ∨ body.head? = some Op.begin) := by
+  induction files with
+  | nil =>
+    intro txOpen fi
+    exact ⟨[], (planFiles cfg db txOpen fi []).1, by simp, by cases txOpen <;> simp [planFiles], by simp, by simp⟩
+  | cons f rest ih =>
+    intro txOpen fi
+    rcases modeFor_all cfg h f with hm | hm
+    · obtain ⟨body', tail', he, hl, hq, _⟩ := ih true (fi + 1)
+      have hplain : ∀ op ∈ (fileOps db fi f).1, op.quiet = true := by
+        intro op hop
+        have := fileOps_plain db fi f op hop
+        cases op <;> simp_all [Op.quiet, Op.plain]
+      cases hok : (fileOps db fi f).2 with
+      | true =>
+        refine ⟨(if txOpen = true then [] else [Op.begin]) ++ (fileOps db fi f).1 ++ body', tail', ?_, hl, ?_, ?_⟩
+        · unfold planFiles; simp only [hm, hok, ↓reduceIte]; rw [he]; simp [List.append_assoc]
+        · intro op hop
+          simp only [List.mem_append] at hop
+          rcases hop with (hop | hop) | hop
+          · cases txOpen <;> simp at hop; subst hop; rfl
+          · exact hplain op hop
+          · exact hq op hop
+        · intro ht; subst ht; right; simp
+      | false =>
+        refine ⟨(if txOpen = true then [] else [Op.begin]) ++ (fileOps db fi f).1, [Op.rollback], ?_, by simp, ?_, ?_⟩
+        · unfold planFiles; simp only [hm, hok]; simp
+        · intro op hop
+          simp only [List.mem_append] at hop
+          rcases hop with hop | hop
+          · cases txOpen <;> simp at hop; subst hop; rfl
+          · exact hplain op hop
+        · intro ht; subst ht; right; simp
+    · refine ⟨[], (planFiles cfg db txOpen fi (f :: rest)).1, by simp, ?_, by simp, by simp⟩
+      unfold planFiles; simp only [hm]; cases txOpen <;> simp
+
+/-- **crash in mode `all`**: whatever the directory holds, a process that dies before the LAST operation of the
+command (the only COMMIT, if there is one) has changed nothing durable. -/
+theorem plan_all_crash_any (cfg : Cfg) (h : cfg.mode = .all) (dir : List TFile) (db : Db) (k : Nat)
+    (hk : k < (plan cfg dir db).1.length) : crashAt db (plan cfg dir db).1 k = db := by
+  unfold plan at hk ⊢
+  by_cases hd : cfg.dryRun = true
+  · simp [hd] at hk
+  · simp only [hd, Bool.false_eq_true, ↓reduceIte] at hk ⊢
+    obtain ⟨body, tail, he, hl, hq, hb⟩ := planFiles_all_shape cfg h db (limit cfg.count (dir.drop (pendingStart db))) false (pendingStart db)
+    rw [he] at hk ⊢
+    have hkb : k ≤ body.length := by simp at hk; omega
+    have htake : (body ++ tail).take k = body.take k := by
+      rw [List.take_append_of_le_length hkb]
+    unfold crashAt St.crash
+    rw [htake]
+    apply applyOps_quiet_closed
+    · intro op hop; exact hq op (List.mem_of_mem_take hop)
+    · rcases hb rfl with hb | hb
+      · left; simp [hb]
+      · cases k with
+        | zero => left; simp
+        | succ k =>
+          right
+          cases body with
+          | nil => simp at hb
+          | cons b bs => simpa using hb
+
+end Atlas.Tx
